@@ -267,7 +267,13 @@ def _check(pre, cg, aa):
             rec('C03', 'c03.unequal_annotated_order', f'{tag} bond {u}-{v} formed from descriptors of different order {pair}')
         both = bool(aa.nodes[u].get('aromatic')) and bool(aa.nodes[v].get('aromatic'))
         fo = d.get('order')
-        if not (fo in (o0, o1) or (fo == 1.5 and both and all_atom)):
+        def written_lower(n_):
+            return any((templates.get(ent[0], ({}, {}))[0].get(ent[1]) or {}).get('aromatic') for ent in aa.nodes[n_].get('mapping', []) or [])
+        # polymer-style workloads do not control the chemistry: a lower-case unit may receive an exocyclic double bond (unequal
+        # orders pair under the label-insensitive convention), its ring is then not aromatic and the library re-kekulises all
+        # lower-case atoms, the bond between two of them included. There the order of such a bond is 1, 2 or 1.5.
+        loose = bool(CONTEXT.get('uncontrolled_aromatic')) and all_atom and written_lower(u) and written_lower(v) and fo in (1, 2, 1.5)
+        if not (fo in (o0, o1) or (fo == 1.5 and both and all_atom) or loose):
             rec('C03', 'c03.bond_order', f'{tag} bond {u}-{v} from {pair} has order {fo!r} (aromatic both: {both})')
         # each endpoint must have carried its descriptor in its template
         def carried(n, desc):
